@@ -781,7 +781,7 @@ def run(chk, replay=None):
     incons = [c["id"] for c, o in zip(cases, obs) if not o["rm_same"]]
     if incons:
         broken.append("a plain ReadMessage loop and the handler of serve() saw different messages on cases %s" % incons[:10])
-    if broken and not chk.violations and not chk.known_hits:
+    if broken and not chk.violations:
         chk.fail("broken.txt", "\n\n".join(broken), no_input=True)
     chk.cov["disagreements"] = {"gen": len(gen_bad), "corr": len(corr_bad), "prop": len(prop_bad), "rm_loop": len(incons),
                                 "writer_corr": len(corr_bad_w), "writer_prop": len(prop_bad_w),
